@@ -143,3 +143,148 @@ Proof.
   change (fun i => negb (existsb (Nat.eqb i) Ps)) with (fun i => negb (g i)). lia.
 Qed.
 End Len.
+
+(* ---------- exact lengths of the subscript operations (Z level) ---------- *)
+Local Open Scope Z_scope.
+Section ZLen.
+Context {A : Type}.
+
+Lemma in_range_lt (l : list A) i : in_range (zlen l) i = true -> (nat_index (zlen l) i < length l)%nat.
+Proof.
+  unfold in_range, nat_index, norm_index, zlen. intros H. apply andb_true_iff in H. destruct H as [H1 H2].
+  destruct (i <? 0) eqn:E; lia.
+Qed.
+
+Lemma setitem_int_length (l l' : list A) i v : setitem_int l i v = Ok l' -> zlen l' = zlen l.
+Proof.
+  unfold setitem_int. destruct (in_range (zlen l) i) eqn:R; [|discriminate]. intros H. inversion H.
+  unfold zlen. rewrite set_nth_length by (apply in_range_lt; exact R). reflexivity.
+Qed.
+
+Lemma delitem_int_length (l l' : list A) i : delitem_int l i = Ok l' -> zlen l' = zlen l - 1.
+Proof.
+  unfold delitem_int. destruct (in_range (zlen l) i) eqn:R; [|discriminate]. intros H. inversion H.
+  pose proof (del_nth_length _ l (in_range_lt l i R)) as E. unfold zlen in *. lia.
+Qed.
+
+Lemma pop_length (l l' : list A) i x : pop l i = Ok (x, l') -> zlen l' = zlen l - 1.
+Proof.
+  unfold pop, getitem_int. destruct (in_range (zlen l) i) eqn:R; [|discriminate].
+  destruct (nth_error l (nat_index (zlen l) i)); [|discriminate]. cbn. intros H. inversion H.
+  pose proof (del_nth_length _ l (in_range_lt l i R)) as E. unfold zlen in *. lia.
+Qed.
+
+Lemma insert_length (l : list A) i v : zlen (insert l i v) = zlen l + 1.
+Proof. unfold insert, zlen. rewrite ins_nth_length. lia. Qed.
+
+Lemma imul_length (l : list A) n : zlen (imul l n) = Z.max 0 (zlen l * n).
+Proof.
+  unfold imul, zlen. destruct (n <? 1) eqn:E.
+  - cbn. destruct (Z.eq_dec n 0) as [->|]; [lia|]. nia.
+  - rewrite rep_length. nia.
+Qed.
+
+Lemma select_npos_length (l : list A) sl : slice_step sl <> 0 ->
+  length (select l (npos (zlen l) sl)) = length (npos (zlen l) sl).
+Proof. intros Hs. apply select_length. intros p. apply npos_bounds. exact Hs. Qed.
+
+Lemma delitem_slice_length (l l' r : list A) sl :
+  delitem_slice l sl = Ok l' -> getitem_slice l sl = Ok r -> zlen l' = zlen l - zlen r /\ 0 <= zlen l - zlen r.
+Proof.
+  unfold delitem_slice, getitem_slice. destruct (Z.eqb_spec (slice_step sl) 0) as [|Hs]; [discriminate|].
+  intros H1 H2. inversion H1. inversion H2. subst.
+  pose proof (delete_at_length l (npos (zlen l) sl) (npos_NoDup l sl Hs) (fun p => npos_bounds l sl p Hs)) as E.
+  pose proof (select_npos_length l sl Hs) as E2.
+  set (NP := npos (zlen l) sl) in *. unfold zlen. lia.
+Qed.
+
+Lemma setitem_slice_length (l l' r vs : list A) sl :
+  setitem_slice l sl vs = Ok l' -> getitem_slice l sl = Ok r ->
+  zlen l' = (if slice_step sl =? 1 then zlen l - zlen r + zlen vs else zlen l) /\ 0 <= zlen l - zlen r.
+Proof.
+  unfold setitem_slice, getitem_slice. destruct (Z.eqb_spec (slice_step sl) 0) as [|Hs]; [discriminate|].
+  pose proof (indices_step (zlen l) sl) as HS.
+  destruct (indices (zlen l) sl) as [[a b] c] eqn:Hidx. cbn [snd] in HS. subst c.
+  pose proof (select_npos_length l sl Hs) as E2.
+  intros H1 H2. inversion H2. subst r. clear H2.
+  assert (length (npos (zlen l) sl) <= length l)%nat as Hle.
+  { pose proof (delete_at_length l (npos (zlen l) sl) (npos_NoDup l sl Hs) (fun p => npos_bounds l sl p Hs)). lia. }
+  destruct (Z.eqb_spec (slice_step sl) 1) as [H1'|H1'].
+  - inversion H1. subst l'. rewrite H1' in Hidx.
+    destruct sl as [[oa ob] oc].
+    destruct (indices_pos _ _ _ _ _ _ _ (zlen_nonneg l) Hidx ltac:(lia)) as [Ha Hb].
+    assert (length (npos (zlen l) (oa, ob, oc)) = Z.to_nat (Z.max a b) - Z.to_nat a)%nat as EN.
+    { unfold npos, slice_positions. rewrite Hidx, map_length, positions_length.
+      unfold slicelen. cbn [Z.ltb Z.compare]. destruct (Z.ltb_spec a b); [rewrite Z.div_1_r|]; lia. }
+    unfold zlen in *. rewrite !app_length, firstn_length, skipn_length. rewrite E2, EN.
+    rewrite Nat.min_l by lia. clear H1 E2 EN Hle Hidx Hs H1'. split; lia.
+  - destruct (Nat.eqb_spec (length vs) (length (npos (zlen l) sl))); [|discriminate].
+    inversion H1. unfold zlen at 1 2. rewrite assign_at_length. split; [reflexivity|unfold zlen in *; lia].
+Qed.
+
+Lemma set_nth_same (l : list A) j x : nth_error l j = Some x -> set_nth j x l = l.
+Proof.
+  revert l. induction j as [|j IH]; intros [|a l] H; cbn in H; try discriminate.
+  - inversion H. reflexivity.
+  - unfold set_nth in *. cbn. f_equal. apply IH. exact H.
+Qed.
+End ZLen.
+
+(* ---------- [Forall P] through the list methods ---------- *)
+Section FZ.
+Context {A : Type}.
+Variable P : A -> Prop.
+
+Lemma Forall_setitem_int (l l' : list A) i v : P v -> Forall P l -> setitem_int l i v = Ok l' -> Forall P l'.
+Proof.
+  unfold setitem_int. destruct (in_range (zlen l) i); [|discriminate]. intros Hv F H. inversion H.
+  apply Forall_set_nth; assumption.
+Qed.
+Lemma Forall_delitem_int (l l' : list A) i : Forall P l -> delitem_int l i = Ok l' -> Forall P l'.
+Proof.
+  unfold delitem_int. destruct (in_range (zlen l) i); [|discriminate]. intros F H. inversion H.
+  apply Forall_del_nth; assumption.
+Qed.
+Lemma Forall_setitem_slice (l l' vs : list A) sl :
+  Forall P l -> Forall P vs -> setitem_slice l sl vs = Ok l' -> Forall P l'.
+Proof.
+  unfold setitem_slice. destruct (slice_step sl =? 0); [discriminate|].
+  destruct (indices (zlen l) sl) as [[a b] c]. intros F FV H.
+  destruct (c =? 1).
+  - inversion H. apply Forall_app. split; [apply Forall_firstn_; exact F|].
+    apply Forall_app. split; [exact FV|apply Forall_skipn_; exact F].
+  - destruct (Nat.eqb (length vs) (length (npos (zlen l) sl))); [|discriminate].
+    inversion H. apply Forall_assign_at; assumption.
+Qed.
+Lemma Forall_delitem_slice (l l' : list A) sl : Forall P l -> delitem_slice l sl = Ok l' -> Forall P l'.
+Proof.
+  unfold delitem_slice. destruct (slice_step sl =? 0); [discriminate|]. intros F H. inversion H.
+  apply Forall_delete_at; assumption.
+Qed.
+Lemma Forall_insert (l : list A) i v : P v -> Forall P l -> Forall P (insert l i v).
+Proof. intros. unfold insert. apply Forall_ins_nth; assumption. Qed.
+Lemma Forall_pop (l l' : list A) i x : Forall P l -> pop l i = Ok (x, l') -> Forall P l'.
+Proof.
+  unfold pop. destruct (getitem_int l i); [|discriminate]. cbn. intros F H. inversion H.
+  apply Forall_del_nth; assumption.
+Qed.
+Lemma Forall_imul (l : list A) n : Forall P l -> Forall P (imul l n).
+Proof. intros F. unfold imul. destruct (n <? 1); [constructor|apply Forall_rep; exact F]. Qed.
+Lemma Forall_remove eqb (l l' : list A) x : Forall P l -> remove eqb l x = Ok l' -> Forall P l'.
+Proof.
+  unfold remove. destruct (index_of eqb x l); [|discriminate]. intros F H. inversion H.
+  apply Forall_del_nth; assumption.
+Qed.
+
+Lemma index_of_lt eqb (x : A) l n : index_of eqb x l = Some n -> (n < length l)%nat.
+Proof.
+  revert n. induction l as [|a l IH]; intros n H; cbn in H; [discriminate|].
+  destruct (eqb a x); [inversion H; cbn; lia|].
+  destruct (index_of eqb x l) as [m|]; [|discriminate]. inversion H. specialize (IH m eq_refl). cbn. lia.
+Qed.
+Lemma remove_length eqb (l l' : list A) x : remove eqb l x = Ok l' -> zlen l' = zlen l - 1.
+Proof.
+  unfold remove. destruct (index_of eqb x l) as [n|] eqn:E; [|discriminate]. intros H. inversion H.
+  pose proof (del_nth_length n l (index_of_lt eqb x l n E)). unfold zlen. lia.
+Qed.
+End FZ.
